@@ -9,7 +9,8 @@ reference codec ref/codec.py.  Started by h_wire as a child process, once per wo
   wire_peer.py --repo /repo --echo PORT         frame mode: connect message_transceiver_thread to 127.0.0.1:PORT and
                                                 echo every received Message back unchanged
 
-Request : {"case":k, "script":{what,fields:[{n,t,v}]}, "cpp":"<hex of the C++ bytes>", "nopy":"<reason>"|""}
+Request : {"case":k, "script":{what,fields:[{n,t,v}]}, "cpp":"<hex of the C++ bytes>", "nopy":"<reason>"|"",
+           "prev":{script}}   (optional: the Message object the C++ bytes are parsed INTO already holds this content)
           {"cmd":"example"}    -> message.py's own documentation example (its __main__ test stub), flattened
 Verdict : R \\t case \\t key-or-'-' \\t detail \\t name=n,name=n,... \\t hex-of-python-native-bytes-or-'-'
 A verdict key is a stable classifier; the harness turns it into vh::viol(key, detail).
@@ -194,11 +195,18 @@ def handle(req):
         except Exception as e:
             fail('py|exception-in-native-build', '%r\n%s' % (e, traceback.format_exc()[-600:]))
         try:
-            p = message.Message(); p.SetFromFlattenedBuffer(cpp); stats['py_parsed_cpp_bytes'] = 1
+            # the target of the parse is a fresh Message or (when the harness sent a "prev" script) one that already holds content
+            used = ''
+            if req.get('prev') is not None:
+                p = build_native(req['prev'], int(req.get('case', 0)) + 1, {}); used = '|used-target'; stats['py_parse_into_used_target'] = 1
+                if not model[1]: stats['py_parse_fieldless_into_used_target'] = 1
+            else:
+                p = message.Message()
+            p.SetFromFlattenedBuffer(cpp); stats['py_parsed_cpp_bytes'] = 1
             why = check_content(p, model, '')
-            if why: fail('py|parse-of-cpp-bytes-content', why)
+            if why: fail('py|parse-of-cpp-bytes-content' + used, why)
             back = p.GetFlattenedBuffer()
-            if back != cpp: fail(DEFECT if (nonascii_nested and size_defect(p)) else 'py|reflatten-of-cpp-bytes', describe_diff('c++', cpp, 'python', back))
+            if back != cpp: fail(DEFECT if (nonascii_nested and size_defect(p)) else 'py|reflatten-of-cpp-bytes' + used, describe_diff('c++', cpp, 'python', back))
             elif p.FlattenedSize() != len(cpp) and not nonascii_any: fail('py|flattenedsize-vs-flatten', 'after parsing: FlattenedSize() %d, bytes %d' % (p.FlattenedSize(), len(cpp)))
         except Exception as e:
             fail('py|parse-of-cpp-bytes-exception', '%r\n%s' % (e, traceback.format_exc()[-600:]))
